@@ -2615,6 +2615,243 @@ def _iter_generic_dispatch(path):
     return TABLE.get("std::iter::%s::%s" % (m.group(1), m.group(2)))
 
 
+def ordering_then(i, fr, st, pc, a, t, fn, r):
+    """Ordering::then / then_with: lexicographic composition (the second comparison is pure here)"""
+    first = a[0]
+    if fn["name"] == "then_with":
+        outs = call_closure(i, fr, st, pc, a[1], [])
+        if len(outs) != 1 or outs[0].kind != "return":
+            # only reached when the first is Equal: evaluate lazily on a concrete first, otherwise give up
+            if isinstance(first, Agg) and first.variant != 1:
+                return _ret(i, st, pc, first)
+            if isinstance(first, Agg):
+                return outs
+            raise Undecided("then_with with a splitting closure")
+        st, pc, second = outs[0].state, outs[0].pc, outs[0].value
+    else:
+        second = a[1]
+    if isinstance(first, Agg):
+        return _ret(i, st, pc, second if first.variant == 1 else first)
+    if isinstance(first, Opaque) and first.kind == "lexcmp":
+        if isinstance(second, Opaque) and second.kind == "lexcmp":
+            return _ret(i, st, pc, Opaque("lexcmp", (tuple(first.data[0]) + tuple(second.data[0]), tuple(first.data[1]) + tuple(second.data[1]))))
+        if isinstance(second, Agg) and second.variant == 1:
+            return _ret(i, st, pc, first)
+    raise Undecided("Ordering::then of %r and %r" % (first, second))
+
+
+def bool_then(i, fr, st, pc, a, t, fn, r):
+    """bool::then(f) / then_some(v)"""
+    c = a[0]
+    lazy = fn["name"] == "then"
+    if isinstance(c, W) and c.val is not None:
+        if not c.val:
+            return _ret(i, st, pc, NONE)
+        if not lazy:
+            return _ret(i, st, pc, some(a[1]))
+        res = []
+        for o in call_closure(i, fr, st, pc, a[1], []):
+            res.append(Outcome("return", o.state, o.pc, some(o.value)) if o.kind == "return" else o)
+        return res
+    s2 = st.fork()
+    res = [Outcome("return", s2, pc + (b_not(c),), NONE)]
+    if not lazy:
+        res.append(Outcome("return", st, pc + (c,), some(a[1])))
+        return res
+    for o in call_closure(i, fr, st, pc + (c,), a[1], []):
+        res.append(Outcome("return", o.state, o.pc, some(o.value)) if o.kind == "return" else o)
+    return res
+
+
+TABLE.update({
+    "std::cmp::Ordering::then_with": ordering_then,
+    "std::cmp::Ordering::then": ordering_then,
+    "std::primitive::bool::then": bool_then,
+    "std::primitive::bool::then_some": bool_then,
+    "core::bool::<impl bool>::then": bool_then,
+    "core::bool::<impl bool>::then_some": bool_then,
+    "std::bool::<impl bool>::then": bool_then,
+    "std::bool::<impl bool>::then_some": bool_then,
+})
+
+
+# ---------------------------------------------------------------------------------- idioms met in refactors
+def _into_iter_view(i, st, v):
+    """IntoIterator applied inside an adaptor (zip(slice), chain(vec), for x in &vec): a slice / Vec handle iterates
+    over references to its elements"""
+    if isinstance(v, Ptr) and v.sl is None:
+        inner = i.read_ptr(st, v)
+        if isinstance(inner, Ptr) and inner.sl is not None:
+            v = inner
+        elif isinstance(inner, Arr):
+            return Opaque("slice_iter", (Ptr(v.cell, v.path, (0, len(inner.elems)), "ref"), usize(0), usize(len(inner.elems)), wbool(False)))
+    if isinstance(v, Ptr) and v.sl is not None:
+        return mk_slice_iter(i, st, v, False)
+    return v
+
+
+_old_iter_next9 = iter_next
+
+
+def iter_next(interp, st, it, back=False):  # noqa: F811
+    if isinstance(it, Ptr):
+        it2 = _into_iter_view(interp, st, it)
+        if it2 is not it:
+            return _old_iter_next9(interp, st, it2, back)
+    if isinstance(it, Opaque) and it.kind in ("zip", "chain") and any(isinstance(x, Ptr) for x in it.data):
+        it = Opaque(it.kind, tuple(_into_iter_view(interp, st, x) if isinstance(x, Ptr) else x for x in it.data))
+    return _old_iter_next9(interp, st, it, back)
+
+
+def from_bool(i, fr, st, pc, a, t, fn, r):
+    x = a[0]
+    w = (r or fn)["args"][0].get("w", 64) if (r or fn).get("args") else 64
+    if x.val is not None:
+        return _ret(i, st, pc, wconst(w, x.val))
+    return _ret(i, st, pc, W(w, bits=[x.bits[0]] + [ZERO] * (w - 1)))
+
+
+def mem_take(i, fr, st, pc, a, t, fn, r):
+    """mem::take(&mut x): hands out x and leaves Default::default() (integers 0, bool false, empty slice / Vec)"""
+    x = i.read_ptr(st, a[0])
+    if isinstance(x, W):
+        d = W(x.width, val=0, signed=x.signed)
+    elif isinstance(x, Ptr) and x.sl is not None:
+        if x.kind == "vec":
+            cell = new_cell()
+            st.mem[cell] = Arr([])
+            d = Ptr(cell, (), (0, 0), "vec")
+        else:
+            d = Ptr(x.cell, x.path, (x.sl[0], 0), x.kind)
+    else:
+        raise Undecided("mem::take of %r" % (x,))
+    i.write_ptr(st, a[0], d)
+    return _ret(i, st, pc, x)
+
+
+def slice_split_end(i, fr, st, pc, a, t, fn, r):
+    """split_first / split_last (and _mut): Option<(&T, &[T])>"""
+    p = a[0]
+    if isinstance(p, Ptr) and p.sl is None:
+        inner = i.read_ptr(st, p)
+        if isinstance(inner, Ptr):
+            p = inner
+    n = i.slice_len(st, p)
+    if n == 0:
+        return _ret(i, st, pc, NONE)
+    lo = p.sl[0]
+    if "first" in fn["name"]:
+        one, rest = i.elem_ptr(p, 0), Ptr(p.cell, p.path, (lo + 1, n - 1), "ref")
+    else:
+        one, rest = i.elem_ptr(p, n - 1), Ptr(p.cell, p.path, (lo, n - 1), "ref")
+    return _ret(i, st, pc, some(Agg("tuple", None, 0, (one, rest))))
+
+
+def slice_windows(i, fr, st, pc, a, t, fn, r):
+    p, k = a
+    if k.val is None:
+        raise Undecided("symbolic window size")
+    if k.val == 0:
+        return i.panic(st, pc, "window size must be non-zero", fr, t)
+    n = i.slice_len(st, p)
+    lo = p.sl[0]
+    vals = [Ptr(p.cell, p.path, (lo + j, k.val), "ref") for j in range(0, max(0, n - k.val + 1))]
+    return _ret(i, st, pc, Opaque("vals", (tuple(vals), usize(0))))
+
+
+def slice_concat(i, fr, st, pc, a, t, fn, r):
+    """[V].concat() for slices / Vecs of Copy elements"""
+    outer = a[0]
+    out = []
+    for e in i.slice_elems(st, outer):
+        if isinstance(e, Ptr) and e.sl is None:
+            e = i.read_ptr(st, e)
+        if isinstance(e, Arr):
+            out += list(e.elems)
+        elif isinstance(e, Ptr) and e.sl is not None:
+            out += list(i.slice_elems(st, e))
+        else:
+            raise Undecided("concat of %r" % (e,))
+    cell = new_cell()
+    st.mem[cell] = Arr(out)
+    return _ret(i, st, pc, Ptr(cell, (), (0, len(out)), "vec"))
+
+
+def it_zip2(i, fr, st, pc, a, t, fn, r):
+    return _ret(i, st, pc, Opaque("zip", (_into_iter_view(i, st, a[0]), _into_iter_view(i, st, a[1]))))
+
+
+def it_chain2(i, fr, st, pc, a, t, fn, r):
+    return _ret(i, st, pc, Opaque("chain", (_into_iter_view(i, st, a[0]), _into_iter_view(i, st, a[1]))))
+
+
+TABLE.update({
+    "std::iter::Iterator::zip": it_zip2,
+    "std::iter::Iterator::chain": it_chain2,
+    "std::mem::take": mem_take,
+    "core::slice::<impl [T]>::split_first": slice_split_end,
+    "core::slice::<impl [T]>::split_last": slice_split_end,
+    "core::slice::<impl [T]>::split_first_mut": slice_split_end,
+    "core::slice::<impl [T]>::split_last_mut": slice_split_end,
+    "std::slice::<impl [T]>::split_first": slice_split_end,
+    "std::slice::<impl [T]>::split_last": slice_split_end,
+    "core::slice::<impl [T]>::windows": slice_windows,
+    "std::slice::<impl [T]>::concat": slice_concat,
+})
+for _w in (8, 16, 32, 64, 128):
+    TABLE["std::convert::num::<impl std::convert::From<bool> for u%d>::from" % _w] = from_bool
+    TABLE["std::convert::num::<impl std::convert::From<bool> for i%d>::from" % _w] = from_bool
+TABLE["std::convert::num::<impl std::convert::From<bool> for usize>::from"] = from_bool
+
+
+def ref_ord(i, fr, st, pc, a, t, fn, r):
+    """&A < &B etc.: the comparison of the referents (integers here)"""
+    x, y = a
+    for _ in range(3):
+        if isinstance(x, Ptr) and x.sl is None:
+            x = i.read_ptr(st, x)
+        if isinstance(y, Ptr) and y.sl is None:
+            y = i.read_ptr(st, y)
+    if isinstance(x, W) and isinstance(y, W):
+        op = {"lt": "Lt", "le": "Le", "gt": "Gt", "ge": "Ge"}[fn["name"]]
+        return _ret(i, st, pc, i.binop(op, x, y, fr))
+    raise Undecided("order of %r and %r" % (x, y))
+
+
+def slice_split_at(i, fr, st, pc, a, t, fn, r):
+    p, k = a
+    if isinstance(p, Ptr) and p.sl is None:
+        inner = i.read_ptr(st, p)
+        if isinstance(inner, Ptr):
+            p = inner
+    if k.val is None:
+        raise Undecided("symbolic split point")
+    n = i.slice_len(st, p)
+    if k.val > n:
+        return i.panic(st, pc, "mid > len", fr, t)
+    lo = p.sl[0]
+    return _ret(i, st, pc, Agg("tuple", None, 0, (Ptr(p.cell, p.path, (lo, k.val), "ref"), Ptr(p.cell, p.path, (lo + k.val, n - k.val), "ref"))))
+
+
+TABLE.update({
+    "std::cmp::impls::<impl std::cmp::PartialOrd<&B> for &A>::lt": ref_ord,
+    "std::cmp::impls::<impl std::cmp::PartialOrd<&B> for &A>::le": ref_ord,
+    "std::cmp::impls::<impl std::cmp::PartialOrd<&B> for &A>::gt": ref_ord,
+    "std::cmp::impls::<impl std::cmp::PartialOrd<&B> for &A>::ge": ref_ord,
+    "core::slice::<impl [T]>::split_at": slice_split_at,
+    "core::slice::<impl [T]>::split_at_mut": slice_split_at,
+    "<std::slice::Windows<'a, T> as std::iter::Iterator>::next": multi_next,
+})
+
+
+def it_count_multi(i, fr, st, pc, a, t, fn, r):
+    """count() on any modelled iterator (filters fork per element)"""
+    return _drive(i, fr, st, pc, a[0], 0, lambda s, p, acc, item: [(s, p, acc + 1, False)], lambda s, p, acc: usize(acc))
+
+
+TABLE["std::iter::Iterator::count"] = it_count_multi
+
+
 def _int_dispatch(path):
     m = _INT_RE.match(path)
     if not m:
